@@ -1043,3 +1043,241 @@ Qed.
 Lemma number_nil u t pre : t = TINT \/ t = TFLOAT \/ t = TSTRICTFLOAT \/ t = TNUMBER \/ t = TBOOL ->
   bt_match (src_env u) t pre [] = None.
 Proof. intros [-> | [-> | [-> | [-> | ->]]]]; reflexivity. Qed.
+
+(* ================================================================ sequences of written values, every base type *)
+Definition numlit_value (n : numlit) : value :=
+  match n with NLInt z => VInt z | NLFloat so m eo => VFloat (float_chars so m eo) end.
+
+Lemma seq_text_items {A} (text : A -> list N) (val : A -> value) (items : list (A * list N)) :
+  items_text text items = seq_text (map (fun it => (text (fst it), snd it, val (fst it))) items).
+Proof.
+  unfold items_text. induction items as [|[a w] tl IH]; [reflexivity|].
+  cbn [flat_map map seq_text fst snd]. rewrite IH, <- app_assoc. reflexivity.
+Qed.
+
+Lemma chain_of_seps {A} (text : A -> list N) (val : A -> value) (P : list N -> Prop) (items : list (A * list N)) :
+  P [] -> (forall w rest, forallb is_ws w = true -> w <> [] -> P (w ++ rest)) ->
+  (forall a w, In (a, w) items -> forallb is_ws w = true) -> seps_ok items ->
+  chain_ok P (map (fun it => (text (fst it), snd it, val (fst it))) items).
+Proof.
+  intros Hnil Hws. induction items as [|[a w] tl IH]; intros Hw Hseps; [exact I|].
+  cbn [map chain_ok fst snd]. split.
+  - destruct tl as [|it tl'].
+    + cbn [map seq_text]. rewrite app_nil_r. destruct w as [|c w']; [exact Hnil|].
+      rewrite <- (app_nil_r (c :: w')). apply Hws; [apply (Hw a); left; reflexivity | discriminate].
+    + cbn [seps_ok] in Hseps. destruct Hseps as [Hne _]. apply Hws; [apply (Hw a); left; reflexivity | exact Hne].
+  - apply IH.
+    + intros a' w' Hin. apply (Hw a'). right. exact Hin.
+    + cbn [seps_ok] in Hseps. destruct tl as [|it tl']; [exact I | apply Hseps].
+Qed.
+
+(* the generic statement: items that each match in full before an acceptable continuation P, separated by
+   non-empty whitespace (which is an acceptable continuation), load as exactly their values *)
+Lemma load_written {A} E t (P : list N -> Prop) (text : A -> list N) (val : A -> value) (ok : A -> Prop) :
+  (forall pre, bt_match E t pre [] = None) ->
+  P [] -> (forall w rest, forallb is_ws w = true -> w <> [] -> P (w ++ rest)) ->
+  (forall a, ok a -> starts_nonws (text a)) ->
+  (forall a pre rest, ok a -> P rest ->
+     exists leaf, bt_match E t pre (text a ++ rest) = Some (leaf, length (text a)) /\ convert leaf (text a) = val a) ->
+  forall (items : list (A * list N)) w0,
+  (forall a w, In (a, w) items -> ok a /\ forallb is_ws w = true) -> seps_ok items -> forallb is_ws w0 = true ->
+  load_many E t (w0 ++ items_text text items) = Some (map (fun it => val (fst it)) items).
+Proof.
+  intros Hnil HP0 HPws Hstart Hmatch items w0 Hitems Hseps Hw0.
+  rewrite (seq_text_items text val). unfold load_many.
+  rewrite (load_seq E t P Hnil (map (fun it => (text (fst it), snd it, val (fst it))) items)).
+  - rewrite map_map. reflexivity.
+  - intros lit w v Hin. apply in_map_iff in Hin as ([a w'] & Heq & Hin). cbn [fst snd] in Heq.
+    injection Heq as <- <- <-. destruct (Hitems a w' Hin) as [Hok Hw].
+    split; [exact Hw|]. split; [apply Hstart; exact Hok|]. intros pre rest HP. apply Hmatch; assumption.
+  - apply chain_of_seps; [exact HP0 | exact HPws | | exact Hseps].
+    intros a w Hin. apply (Hitems a w Hin).
+  - exact Hw0.
+  - lia.
+Qed.
+
+Lemma not_ws_ge33 c : N.leb 33 c = true -> is_ws c = false.
+Proof.
+  intros H. apply N.leb_le in H. unfold is_ws. change src_ws with [9; 10; 13; 32]%N. cbn [existsb].
+  repeat (rewrite (proj2 (N.eqb_neq c _)) by lia). reflexivity.
+Qed.
+
+Lemma is_dig_not_ws c : is_dig c = true -> is_ws c = false.
+Proof.
+  intros H. apply not_ws_ge33. unfold is_dig, in_range in H. apply andb_true_iff in H as [H _].
+  apply N.leb_le in H. apply N.leb_le. lia.
+Qed.
+
+Lemma starts_digits ds t : ds <> [] -> all_digits ds = true -> starts_nonws (ds ++ t).
+Proof.
+  intros Hne Hds. destruct ds as [|c ds']; [contradiction|]. cbn [app starts_nonws].
+  cbn in Hds. apply andb_true_iff in Hds as [Hc _]. apply is_dig_not_ws. exact Hc.
+Qed.
+
+Lemma starts_sign_digits so ds t : ds <> [] -> all_digits ds = true -> starts_nonws (sign_chars so ++ ds ++ t).
+Proof.
+  intros Hne Hds. destruct so as [[|]|]; cbn [sign_chars app]; [reflexivity | reflexivity |].
+  apply starts_digits; assumption.
+Qed.
+
+Lemma starts_dec_text z : starts_nonws (dec_text z).
+Proof.
+  destruct (dec_text_shape z) as (so & ds & -> & Hne & Hds & _).
+  rewrite <- (app_nil_r ds). apply starts_sign_digits; assumption.
+Qed.
+
+Lemma starts_float_chars so m eo : mant_ok m = true -> starts_nonws (float_chars so m eo).
+Proof.
+  intros Hm. unfold float_chars. destruct so as [[|]|]; cbn [sign_chars app]; [reflexivity | reflexivity |].
+  destruct m as [ds1 ds2 | ds2 | ds1]; cbn [mant_ok mant_chars] in *.
+  - apply andb_true_iff in Hm as [Hm _]. apply andb_true_iff in Hm as [Hne Hds].
+    apply all_digits_nonempty in Hne. rewrite <- app_assoc. apply starts_digits; assumption.
+  - reflexivity.
+  - apply andb_true_iff in Hm as [Hne Hds]. apply all_digits_nonempty in Hne. apply starts_digits; assumption.
+Qed.
+
+Lemma ws_not_digit_next w rest : forallb is_ws w = true -> w <> [] -> not_digit_next (w ++ rest).
+Proof.
+  intros Hw Hne. destruct w as [|c w']; [contradiction|]. cbn [app not_digit_next].
+  cbn [forallb] in Hw. apply andb_true_iff in Hw as [Hc _].
+  destruct (is_dig c) eqn:Hd; [|reflexivity]. rewrite (is_dig_not_ws c Hd) in Hc. discriminate.
+Qed.
+
+Lemma ws_not_word_next u w rest : forallb is_ws w = true -> w <> [] -> not_word_next (src_env u) (w ++ rest).
+Proof.
+  intros Hw Hne.
+  pose proof (is_ws_delimited u w rest Hw Hne) as Hd. destruct w as [|c w']; [contradiction|].
+  cbn [app delimited not_word_next] in *. apply Hd.
+Qed.
+
+(* ---- INT *)
+Theorem int_seq u (items : list (Z * list N)) w0 :
+  (forall z w, In (z, w) items -> forallb is_ws w = true) -> seps_ok items -> forallb is_ws w0 = true ->
+  load_many (src_env u) TINT (w0 ++ items_text dec_text items) = Some (map (fun it => VInt (fst it)) items).
+Proof.
+  intros Hitems Hseps Hw0.
+  apply (load_written (src_env u) TINT not_digit_next dec_text VInt (fun _ => True)).
+  - intros pre. apply number_nil. auto.
+  - exact I.
+  - apply ws_not_digit_next.
+  - intros z _. apply starts_dec_text.
+  - intros z pre rest _ HP. exists TINT. apply int_roundtrip. exact HP.
+  - intros z w Hin. split; [exact I | apply (Hitems z w Hin)].
+  - exact Hseps.
+  - exact Hw0.
+Qed.
+
+(* ---- NUMBER: integers and floats mixed *)
+Theorem number_seq u (items : list (numlit * list N)) w0 :
+  (forall n w, In (n, w) items -> numlit_ok n = true /\ forallb is_ws w = true) -> seps_ok items ->
+  forallb is_ws w0 = true ->
+  load_many (src_env u) TNUMBER (w0 ++ items_text numlit_text items) = Some (map (fun it => numlit_value (fst it)) items).
+Proof.
+  intros Hitems Hseps Hw0.
+  apply (load_written (src_env u) TNUMBER (delimited (src_env u)) numlit_text numlit_value (fun n => numlit_ok n = true)).
+  - intros pre. apply number_nil. auto.
+  - exact I.
+  - apply is_ws_delimited.
+  - intros [z | so m eo] Hok; cbn [numlit_text].
+    + apply starts_dec_text.
+    + cbn [numlit_ok] in Hok. apply andb_true_iff in Hok as [Hok _]. apply andb_true_iff in Hok as [Hm _].
+      apply starts_float_chars. exact Hm.
+  - intros [z | so m eo] pre rest Hok HP; cbn [numlit_text numlit_value].
+    + exists TINT. apply number_int_roundtrip. exact HP.
+    + cbn [numlit_ok] in Hok. apply andb_true_iff in Hok as [Hok Hf]. apply andb_true_iff in Hok as [Hm He].
+      exists TSTRICTFLOAT. split; [apply (float_extent u so m eo pre rest Hm He Hf HP) | reflexivity].
+  - exact Hitems.
+  - exact Hseps.
+  - exact Hw0.
+Qed.
+
+(* ---- FLOAT and STRICTFLOAT: float literals *)
+Theorem float_seq u t (items : list (numlit * list N)) w0 :
+  t = TFLOAT \/ t = TSTRICTFLOAT ->
+  (forall n w, In (n, w) items -> numlit_ok n = true /\ numlit_is_float n = true /\ forallb is_ws w = true) ->
+  seps_ok items -> forallb is_ws w0 = true ->
+  load_many (src_env u) t (w0 ++ items_text numlit_text items) = Some (map (fun it => VFloat (numlit_text (fst it))) items).
+Proof.
+  intros Ht Hitems Hseps Hw0.
+  apply (load_written (src_env u) t (delimited (src_env u)) numlit_text (fun n => VFloat (numlit_text n))
+           (fun n => numlit_ok n = true /\ numlit_is_float n = true)).
+  - intros pre. apply number_nil. destruct Ht as [-> | ->]; auto.
+  - exact I.
+  - apply is_ws_delimited.
+  - intros [z | so m eo] [Hok Hfl]; [discriminate|]. cbn [numlit_text].
+    cbn [numlit_ok] in Hok. apply andb_true_iff in Hok as [Hok _]. apply andb_true_iff in Hok as [Hm _].
+    apply starts_float_chars. exact Hm.
+  - intros [z | so m eo] pre rest [Hok Hfl] HP; [discriminate|]. cbn [numlit_text].
+    cbn [numlit_ok] in Hok. apply andb_true_iff in Hok as [Hok Hf]. apply andb_true_iff in Hok as [Hm He].
+    destruct (float_extent u so m eo pre rest Hm He Hf HP) as (H1 & H2 & _).
+    destruct Ht as [-> | ->]; [exists TFLOAT | exists TSTRICTFLOAT]; split; auto.
+  - intros n w Hin. destruct (Hitems n w Hin) as (H1 & H2 & H3). auto.
+  - exact Hseps.
+  - exact Hw0.
+Qed.
+
+(* ---- BOOL *)
+Definition bool_value (sp : list N) : bool := bool_conv sp.
+
+Theorem bool_seq u (items : list (list N * bool * list N)) w0 :
+  (forall sp b w, In (sp, b, w) items -> In (sp, b) bool_spellings /\ forallb is_ws w = true) -> seps_ok items ->
+  forallb is_ws w0 = true ->
+  load_many (src_env u) TBOOL (w0 ++ items_text (fun sb => fst sb) items) = Some (map (fun it => VBool (snd (fst it))) items).
+Proof.
+  intros Hitems Hseps Hw0.
+  apply (load_written (src_env u) TBOOL (not_word_next (src_env u)) (fun sb : list N * bool => fst sb)
+           (fun sb => VBool (snd sb)) (fun sb => In sb bool_spellings)).
+  - intros pre. apply number_nil. auto 6.
+  - exact I.
+  - apply ws_not_word_next.
+  - intros [sp b] Hin. cbn [fst]. cbn [bool_spellings In] in Hin.
+    destruct Hin as [Heq|[Heq|[Heq|[Heq|[Heq|[Heq|[]]]]]]]; injection Heq as <- <-; reflexivity.
+  - intros [sp b] pre rest Hin HP. cbn [fst snd]. exists TBOOL. apply bool_roundtrip; assumption.
+  - intros [sp b] w Hin. apply (Hitems sp b w Hin).
+  - exact Hseps.
+  - exact Hw0.
+Qed.
+
+(* ================================================================ a float match always ends at a delimiter *)
+Definition float_end_ok (E : rxenv) (rest : list N) : Prop :=
+  match rest with [] => True | c :: _ => is_word E c = false /\ c <> 46%N end.
+
+Lemma tail_in_delimited E (Hic : e_ignorecase E = false) st st' :
+  In st' (ends E TAIL st) -> st' = st /\ float_end_ok E (snd st).
+Proof.
+  unfold TAIL. intros Hin. apply ends_seq_in in Hin as (mid & Hmid & Hin).
+  apply ends_lookahead_neg_in in Hin as [-> Hstop].
+  assert (Hms : mid = st).
+  { cbn [ends] in Hmid. destruct (back 1 st); [destruct (xorb false _)|]; cbn in Hmid; destruct Hmid as [<-|[]] || destruct Hmid; reflexivity. }
+  subst mid. split; [reflexivity|]. destruct (snd st) as [|c t]; [exact I|]. cbn [stops float_end_ok] in *.
+  rewrite (mem_WD E Hic) in Hstop. apply orb_false_iff in Hstop as [Hw Hd]. split; [exact Hw | apply N.eqb_neq; exact Hd].
+Qed.
+
+Theorem float_match_delimited u t pre text n :
+  t = TFLOAT \/ t = TSTRICTFLOAT ->
+  bt_match (src_env u) t pre text = Some (t, n) ->
+  exists lit rest, text = lit ++ rest /\ length lit = n /\ float_end_ok (src_env u) rest.
+Proof.
+  intros Ht Hm.
+  assert (Hrx : exists r, bt_rx t = Some r /\ rx_match (src_env u) r pre text = Some n /\
+                          exists a, r = RSeq SIGN (RSeq a TAIL) \/ exists b, r = RSeq SIGN (RSeq a (RSeq b TAIL))).
+  { destruct Ht as [-> | ->]; cbn [bt_match] in Hm; unfold leaf_match in Hm; cbn [bt_rx] in Hm.
+    - exists rx_FLOAT. split; [reflexivity|]. split.
+      + destruct (rx_match (src_env u) rx_FLOAT pre text) as [[|k]|]; try discriminate. injection Hm as <-. reflexivity.
+      + eexists. right. eexists. apply rx_FLOAT_shape.
+    - exists rx_STRICTFLOAT. split; [reflexivity|]. split.
+      + destruct (rx_match (src_env u) rx_STRICTFLOAT pre text) as [[|k]|]; try discriminate. injection Hm as <-. reflexivity.
+      + eexists. left. apply rx_STRICTFLOAT_shape. }
+  destruct Hrx as (r & _ & Hrm & a & Hshape).
+  destruct (rx_match_prefix _ _ _ _ _ Hrm) as (m & rest' & Htext & Hlen & Hfirst).
+  exists m, rest'. split; [exact Htext|]. split; [exact Hlen|].
+  unfold rx_first in Hfirst.
+  assert (Hin : In (rev m ++ pre, rest') (ends (src_env u) r (pre, text))).
+  { destruct (ends (src_env u) r (pre, text)) as [|x l]; [discriminate|]. injection Hfirst as ->. left. reflexivity. }
+  destruct Hshape as [-> | [b ->]].
+  - apply ends_seq_in in Hin as (m1 & _ & Hin). apply ends_seq_in in Hin as (m2 & _ & Hin).
+    apply (tail_in_delimited _ (src_env_ic u)) in Hin as [<- Hok]. exact Hok.
+  - apply ends_seq_in in Hin as (m1 & _ & Hin). apply ends_seq_in in Hin as (m2 & _ & Hin).
+    apply ends_seq_in in Hin as (m3 & _ & Hin).
+    apply (tail_in_delimited _ (src_env_ic u)) in Hin as [<- Hok]. exact Hok.
+Qed.
